@@ -23,4 +23,20 @@ val(os.path.join(ROOT, "MANIFEST.json"), "/root/.vp/MANIFEST.schema.json")
 for f in sorted(os.listdir(os.path.join(ROOT, "evidence"))):
     if f.endswith(".json"):
         val(os.path.join(ROOT, "evidence", f), "/root/.vp/EVIDENCE.schema.json")
+# beyond the schema: a committed evidence file must come from a quiet run on the real tree
+man = json.load(open(os.path.join(ROOT, "MANIFEST.json")))
+levels = {c["property_id"]: c["level_claimed"]["category"] for c in man.get("checks", [])}
+for f in sorted(os.listdir(os.path.join(ROOT, "evidence"))):
+    if not f.endswith(".json"): continue
+    e = json.load(open(os.path.join(ROOT, "evidence", f)))
+    pid = e.get("property_id"); cov = e.get("coverage", {})
+    problems = []
+    if e.get("violations"): problems.append("%s violations recorded" % e["violations"])
+    if levels.get(pid) != e.get("level"): problems.append("level %s, manifest claims %s" % (e.get("level"), levels.get(pid)))
+    if e.get("level") == "proof" and not (cov.get("obligations", 0) >= 1 and cov.get("discharged") == cov.get("obligations")):
+        problems.append("discharged %s of %s obligations" % (cov.get("discharged"), cov.get("obligations")))
+    if e.get("tier") != "quick" or e.get("seed") != 1: problems.append("tier %s seed %s (commit the quick / seed 1 run)" % (e.get("tier"), e.get("seed")))
+    if problems:
+        ok = False
+        print("NOT COMMITTABLE:", f, "; ".join(problems))
 sys.exit(0 if ok else 1)
